@@ -664,6 +664,23 @@ func (env *Env) callExpr(x *ast.CallExpr) Val {
 			return env.fail("typeis: unknown type %s", tn)
 		}
 		return Val{T: tBool, C: []Term{and(not(eq(v.C[0], intT(0))), eq(tr.dynType(v.C[0]), intT(int64(tr.g.typeID(t)))))}}
+	case "unbox":
+		// unbox(x, "*pkg.T"): the concrete value inside interface x, typed as T (meaningful when typeis(x, T))
+		v := env.eval(x.Args[0])
+		lit, ok := x.Args[1].(*ast.BasicLit)
+		if !ok {
+			return env.fail("unbox needs a string literal")
+		}
+		tn, _ := strconv.Unquote(lit.Value)
+		t := tr.g.ld.lookupType(tn)
+		if t == nil {
+			return env.fail("unbox: unknown type %s", tn)
+		}
+		if n := ncomps(t); n != 1 {
+			return env.fail("unbox: type %s is not a single-component value", tn)
+		}
+		uf := tr.e.declareFun(fmt.Sprintf("unbox$%d", tr.g.typeID(t)), []Sort{SInt}, comps(t)[0].Sort)
+		return Val{T: t, C: []Term{{fmt.Sprintf("(%s %s)", uf, v.C[0].S), comps(t)[0].Sort}}}
 	case "int", "int64", "int32", "uint32", "uint64", "uint16", "uint8", "byte", "uint", "int16", "int8":
 		v := env.eval(x.Args[0])
 		var bt types.Type
